@@ -378,10 +378,23 @@ def rule_R33_lift_nested_fns(text, log, label):
             while j < end and toks[j].start < last:
                 j += 1
             continue
+        if t.kind == 'id' and t.text in ('struct', 'impl') and toks[j - 1].kind == 'punct' and toks[j - 1].text in ('{', '}', ';'):
+            # nested type definition / impl block: find its body brace (or the `;` of a unit struct)
+            k = j + 1
+            while k < end and not (toks[k].kind == 'punct' and toks[k].text in ('{', ';')):
+                if toks[k].kind == 'punct' and toks[k].text in ('(', '['):
+                    k = R.match_close(toks, k)
+                k += 1
+            stop = R.match_close(toks, k) if toks[k].text == '{' else k
+            out.append(text[last:t.start])
+            last = toks[stop].end
+            n += 1
+            j = stop + 1
+            continue
         j += 1
     out.append(text[last:])
     if n:
-        log.append(('R33', '%s: %d nested fn item(s) lifted out of the body' % (label, n)))
+        log.append(('R33', '%s: %d nested item(s) (fn / struct / impl) lifted out of the body' % (label, n)))
     return ''.join(out)
 
 
